@@ -46,11 +46,25 @@ def rand_script(rng, n, user):
                 script.append(dict(a="AddListener", l=l))
             elif k < 0.4 and pend:
                 script.append(dict(a="Ack"))
-                pend.pop(0)
+                done = pend.pop(0)
+                if done[0] == "B":
+                    if done[1] not in known_c or tc.get(done[1], {}).get("st") == "NEWBORN":
+                        closing_c.discard(done[1])          # a new Circuit object for this id
+                        failed_c[done[1]] = False
+                    known_c.add(done[1])
             elif k < 1.0 and len(used) < 3:
                 x = [w for w in waits if w not in used][0]
-                kind = rng.choice(["WaitBuilt", "WaitClosed", "CloseC", "CloseS"])
-                if kind == "CloseS":
+                kind = rng.choice(["WaitBuilt", "WaitClosed", "CloseC", "CloseS", "Build"])
+                if kind == "Build":
+                    free = [c for c in (1, 2, 3) if c not in tc and not any(st["circ"] == c for st in ts.values())]
+                    if pend or not free:
+                        continue
+                    c = rng.choice(free)
+                    tc[c] = dict(id=c, st="NEWBORN", path=[], pur=rng.choice(["GENERAL", "HS_CLIENT_REND"]), bf=rng.choice([1, 2]))
+                    script.append(dict(a="Build", x=x, id=c, pur=tc[c]["pur"], bf=tc[c]["bf"]))
+                    used.add(x)
+                    pend.append(("B", c))
+                elif kind == "CloseS":
                     if not ts:
                         continue
                     sid = rng.choice(sorted(ts))
@@ -83,6 +97,14 @@ def rand_script(rng, n, user):
         cids, sids = [1, 2, 3], [1, 2, 3]
         if choice < 0.15:
             c = rng.choice(cids)
+            if c in tc and tc[c]["st"] == "NEWBORN" and not any(p == ("C", c) for p in pend):
+                tc[c] = dict(tc[c], st="LAUNCHED")          # Tor announces the circuit we asked for
+                if ("B", c) in pend:
+                    closing_c.discard(c)                    # the event creates the new Circuit object
+                    failed_c[c] = False
+                known_c.add(c)
+                script.append(dict(a="Launch", ev=tc[c]))
+                continue
             if c in tc or any(s["circ"] == c for s in ts.values()) or any(p == ("C", c) for p in pend):
                 continue
             ev = dict(id=c, st="LAUNCHED", path=[], pur=rng.choice(["GENERAL", "HS_CLIENT_REND"]), bf=rng.choice([1, 2]))
@@ -93,7 +115,7 @@ def rand_script(rng, n, user):
             if phase == "live":
                 known_c.add(c)
         elif choice < 0.35:
-            cs = [c for c, e in tc.items() if e["st"] in ("LAUNCHED", "EXTENDED", "BUILT") and len(e["path"]) < 3]
+            cs = [c for c, e in tc.items() if e["st"] in ("LAUNCHED", "EXTENDED", "BUILT") and len(e["path"]) < 3 and ("B", c) not in pend]
             if not cs:
                 continue
             c = rng.choice(cs)
@@ -103,16 +125,17 @@ def rand_script(rng, n, user):
             tc[c] = ev
             script.append(dict(a="Extend", ev=ev))
         elif choice < 0.45:
-            cs = [c for c, e in tc.items() if e["st"] == "EXTENDED"]
+            cs = [c for c, e in tc.items() if e["st"] == "EXTENDED" and ("B", c) not in pend]
             if not cs:
                 continue
             c = rng.choice(cs)
             tc[c] = dict(tc[c], st="BUILT")
             script.append(dict(a="Built", ev=tc[c]))
         elif choice < 0.52:
-            if not tc:
+            gone = [c for c in sorted(tc) if tc[c]["st"] != "NEWBORN" and ("B", c) not in pend]
+            if not gone:
                 continue
-            c = rng.choice(sorted(tc))
+            c = rng.choice(gone)
             ev = dict(tc[c], st="CLOSED" if tc[c]["st"] == "BUILT" else "FAILED")
             failed_c[c] = ev["st"] == "FAILED"
             del tc[c]
@@ -212,7 +235,7 @@ def run(pid, tier, seed):
         traces.append(t)
         acts = set(e["a"] for e in s)
         if (pid == "C07" and "SentConnect" in acts and ("CircGone" in acts or "Detached" in acts)) or \
-           (pid == "C08" and acts & {"WaitBuilt", "WaitClosed", "CloseC", "CloseS", "AddListener"}):
+           (pid == "C08" and acts & {"WaitBuilt", "WaitClosed", "CloseC", "CloseS", "AddListener", "Build"}):
             seen.add(common.digest(s))
     rep.cov["evaluations"] = len(traces)
     rep.cov["distinct_nontrivial"] = len(seen)
